@@ -1,0 +1,15 @@
+//go:build verif
+
+package core
+
+// This file is a test seam for the external verification harness (/verif, property C20).
+// It is compiled only with `-tags verif` and adds no behaviour to normal builds.
+
+// VerifAddLock takes the lock that serialises block additions (AddBlock,
+// Close). While it is held every AddBlock caller stops where it takes that
+// lock, after everything it does before that point. Must be paired with
+// VerifAddUnlock.
+func (bc *Blockchain) VerifAddLock() { bc.addLock.Lock() }
+
+// VerifAddUnlock releases the lock taken by VerifAddLock.
+func (bc *Blockchain) VerifAddUnlock() { bc.addLock.Unlock() }
